@@ -119,6 +119,12 @@ CLAIMED["C07"] = {
     "note": "Pre-PEP 701 rules (CPython 3.11 is the reference): an unparenthesised tuple in a field has the extent of the surrounding braces in the reference too; expressions with backslashes or the literal's own quote are outside the reference language; ranges of literal pieces are not compared.",
     "technique": "TLA+ generative specification of f-string bodies with the reference decomposition computed in the spec; exhaustive TLC enumeration; CPython cross-validation; decomposition and field-expression trees/ranges replayed into the parser",
 }
+CLAIMED["C04"] = {
+    "text": "PyGen.tla's builder is extended with constructors for exactly one deliberately invalid construct per program (state variable mut = the broken rule): 12 malformed number shapes, 10 malformed string/bytes forms (unterminated, bad \\x/\\u/\\U/\\N, non-ASCII bytes, bytes/text mixing in three orders), 16 malformed f-strings (one per FStringErrorType path), unstartable characters, junk after a continuation backslash, four mismatched bracket pairs, parenthesised lone * and **, six bad call argument lists and three bad class headers, eleven bad parameter lists (duplicates across every parameter kind, default order, bare star) for def, async def and lambda, and 'as _' patterns; the ordinary constructors build every program of three sub-languages around the invalid construct, so each rule is exercised at every site (operands, arguments, subscripts, lambda bodies and defaults, decorators, class bases, returns annotations, statement positions and nested blocks, sequence/or/class/mapping patterns). RuleKinds(rule) gives the error kinds that name the rule. Every mutated program must be rejected by CPython (parser, or compiler message for the two rules CPython checks later; validates the catalogue), and by the parser with a kind in RuleKinds and an offset inside the offending construct's logical line (from the specification's range marks). Lexer-level rules reuse Lexer.tla: for every class string (five alphabets incl. an indentation alphabet up to 7/8 characters) whose first error the machine predicts (NestingError, IndentationError, TabError, TabsAfterSpaces, UnrecognizedToken, LineContinuationError, Eof, number and string errors) lex must report that kind at that offset and parse must reject with it. Every erroneous literal of StrLit.tla must be rejected with a string/unicode error.",
+    "design_ref": "DESIGN.md section 6 C04",
+    "note": "Quick tier strides the mutated programs to 40000 per sub-language; known finding F-C04-1 ('*, **kw' accepted; pinned by existing tests).",
+    "technique": "TLA+ generative grammar with single-violation constructors and a rule -> error-kind table, explored exhaustively by TLC; TLA+ lexer machine predicting the first error of every class string; CPython cross-validation of the catalogue; replay into lex/parse",
+}
 NOT_YET = {}
 
 def main():
